@@ -551,8 +551,8 @@ func moOtherSources(c *Ctx, a *flAgg) {
 								}
 							}
 						}
-						if _, isGo := in.(*ssa.Go); isGo && pn != "internal" {
-							hits = append(hits, hit{f, in.Pos(), "starts a goroutine in library code", "go"})
+						if _, isGo := in.(*ssa.Go); isGo && !(pn == "internal" && strings.HasPrefix(funcKey(f), "internal.Main")) {
+							hits = append(hits, hit{f, in.Pos(), "starts a goroutine outside Main's signal handling: what it writes (a report file, the output) then depends on scheduling", "go"})
 						}
 					case *ssa.Select:
 						if pn != "internal" {
